@@ -378,3 +378,87 @@ def alone_pairs(rng, n: int, stats: dict):
         stats["alone_rel:" + rel] = stats.get("alone_rel:" + rel, 0) + 1
         pairs.append(dict(macro="left-alone-relations", use=sid, l=-1, r=-1, header=header, envs=[], a=src, b=src, rel=dict(word=rel)))
     return pairs
+
+
+# --------------------------------------------------------------------------- one process, changing definitions
+
+# statements using the name {M} inside every kind of bracket and outside (integer-valued definitions)
+SEQ_INT_STATEMENTS = {
+    "selector_arg": "kill @e[limit={M}];",
+    "selector_scores": "kill @e[scores={{obj={M}}}];",
+    "nbt_value": "data modify storage a:b x set value {{v:{M},w:[{M},1]}};",
+    "summon_nbt": "summon zombie ~ ~ ~ {{Health:{M}}};",
+    "json_value": 'tellraw @a {{"text":"a","extra":[{M}]}};',
+    "func_arg": "$r = Math.random(-5, {M});",
+    "func_kwarg": 'Hardcode.repeat((i)=>{{ say "$i"; }}, start=0, stop={M});',
+    "nbt_index": "$x = @s::arr[{M}];",
+    "condition": 'if ($x == {M}) {{ say "y"; }}',
+    "matches_range": 'if ($y matches -3..{M}) {{ say "z"; }}',
+    "hardcode_calc": "Hardcode.repeat((i)=>{{ $z = Hardcode.calc($i*{M}+{M}); }}, start=0, stop=2);",
+    "plain_operand": "$x += {M};",
+    "cmd_arg": "scoreboard players set @s obj {M};",
+    "nested": 'execute as @a[scores={{obj={M}}}] run {{ kill @e[limit={M}]; }}',
+}
+# keyword-valued definitions
+SEQ_WORD_STATEMENTS = {
+    "selector_tag": "kill @e[tag={M}];",
+    "selector_type": "kill @e[type={M},limit=1];",
+    "nbt_string": "data modify storage a:b x set value {{id:{M}}};",
+    "give": "give @s {M} 1;",
+    "setblock": "setblock ~ ~ ~ {M};",
+    "func_arg": 'Text.title(@a[tag={M}], "t");',
+}
+
+
+def sequence_sets(rng, stats: dict):
+    """-> list of sequences; a sequence = list of steps dict(header, envs, namespace, a, b, family, statements) that
+    must be compiled IN ORDER IN ONE PROCESS: the same program text (a) with different definitions of the same name."""
+    seqs = []
+
+    def program(stmts, m):
+        return PRE + "function t() {\n" + "\n".join("    " + s.format(M=m) for s in stmts.values()) + "\n}\n"
+
+    def steps(family, name, stmts, defs):
+        """defs: list of (header, envs, namespace, value text)"""
+        out = []
+        for header, envs, ns, val in defs:
+            out.append(dict(header=header, envs=envs, namespace=ns, a=program(stmts, name), b=program(stmts, val), family=family,
+                            name=name, value=val, statements={k: (v.format(M=name), v.format(M=val)) for k, v in stmts.items()}))
+        return out
+
+    v = rng.sample([2, 3, 4, 5, 6, 7, 9, 12], 3)
+    fams = {
+        "define_value_edit": steps("define_value_edit", "LIMIT", SEQ_INT_STATEMENTS,
+                                   [("#define LIMIT %d" % x, [], "TEST", str(x)) for x in v]),
+        "env_flip": steps("env_flip", "DEBUG", SEQ_INT_STATEMENTS,
+                          [("#env DEBUG", ["DEBUG"], "TEST", "1"), ("#env DEBUG", [], "TEST", "0"), ("#env DEBUG", ["DEBUG"], "TEST", "1")]),
+        "enum_start_change": steps("enum_start_change", "Lvl.HIGH", SEQ_INT_STATEMENTS,
+                                   [("#enum Lvl LOW HIGH", [], "TEST", "1"), ("#enum Lvl %d LOW HIGH" % v[0], [], "TEST", str(v[0] + 1)),
+                                    ("#enum Lvl %d HIGH LOW" % v[1], [], "TEST", str(v[1]))]),
+        "define_vs_env": steps("define_vs_env", "FLAG", SEQ_INT_STATEMENTS,
+                               [("#define FLAG %d" % v[2], [], "TEST", str(v[2])), ("#env FLAG", ["FLAG"], "TEST", "1"),
+                                ("#define FLAG %d" % v[0], [], "TEST", str(v[0]))]),
+        "define_word_edit": steps("define_word_edit", "KIND", SEQ_WORD_STATEMENTS,
+                                  [("#define KIND %s" % w, [], "TEST", w) for w in rng.sample(["pig", "cow", "stone", "zombie"], 3)]),
+        "bind_namespace_change": steps("bind_namespace_change", "NS", SEQ_WORD_STATEMENTS,
+                                       [("#bind __namespace__ NS", [], ns, ns) for ns in ("TEST", "other", "TEST", "third")]),
+        "defined_then_undefined": steps("defined_then_undefined", "KIND", SEQ_WORD_STATEMENTS,
+                                        [("#define KIND pig", [], "TEST", "pig"), ("#define OTHER 1", [], "TEST", "KIND"),
+                                         ("#define KIND cow", [], "TEST", "cow")]),
+    }
+    # a name that WAS an integer macro and is undefined in the next compile must be left alone there (its own program
+    # per statement: both versions are rejected, unless stale definitions survive)
+    for key in ("hardcode_calc", "matches_range", "selector_arg", "nbt_value"):
+        one = {key: SEQ_INT_STATEMENTS[key]}
+        fams["number_defined_then_undefined:" + key] = steps(
+            "number_defined_then_undefined", "LIMIT", one,
+            [("#define LIMIT %d" % v[0], [], "TEST", str(v[0])), ("#define OTHER 1", [], "TEST", "LIMIT"),
+             ("#enum E %d LIMIT" % v[1], [], "TEST", "LIMIT")])
+    for fam, st in fams.items():
+        fam = fam.split(":")[0]
+        seqs.append(st)
+        seqs.append(list(reversed(st)))
+        stats["sequence:" + fam] = stats.get("sequence:" + fam, 0) + 2
+        stats["steps"] = stats.get("steps", 0) + 2 * len(st)
+    stats["statements_per_step"] = dict(int=len(SEQ_INT_STATEMENTS), word=len(SEQ_WORD_STATEMENTS))
+    return seqs
